@@ -29,7 +29,8 @@ def pysrc_str(x):
 
 LEAN_TYPE.update({"Y": "Load.Y", "YList": "List Load.Y", "Loader": "Unit", "NatList": "List Nat", "YMap": "List (Load.Y × Load.Y)",
                   "TopoL": "List (List Int)", "IntList": "List Int", "PyInt": "Int", "IntPair": "Int × Int", "TyName": "String",
-                  "SensMap": "List ((Nat × Nat) × Rat)", "Rat": "Rat"})
+                  "SensMap": "List ((Nat × Nat) × Rat)", "Rat": "Rat", "FlagDict": "List (Load.Y × Bool)",
+                  "FlagDict3": "List (Load.Y × Bool) × List (Load.Y × Bool) × List (Load.Y × Bool)"})
 
 
 class TrLoad(TrAct):
@@ -560,6 +561,82 @@ class TrLoad(TrAct):
         return self.node.body
 
 
+class TrLoadData(TrLoad):
+    """the data-building helpers of `_parse_hosts`: `_construct_host_config` (three name -> flag dictionaries) and
+    `_get_host_value`.  Their `host_cfg` argument is a configuration `_validate_host_config` has accepted (a dict)."""
+    def run1(self):
+        fn = self.fn
+        env = {}
+        ps = " ".join(f"({c} : {LEAN_TYPE[t]})" for c, t in zip(fn.ctx, fn.ctx_ty))
+        for c, t in zip(fn.ctx, fn.ctx_ty):
+            env[c] = ("val", t)
+        got = [a.arg for a in self.node.args.args if a.arg != "self"]
+        if got != [p for p, _ in fn.params]:
+            raise Untranslatable(f"{fn.cls}.{fn.name}: parameters are {got}")
+        for p, t in fn.params:
+            env[p] = ("val", t)
+            ps += f" ({p} : {LEAN_TYPE[t]})"
+        self.loop = None
+        self.known_lists, self.known_maps, self.assert_exits = set(), {"host_cfg"}, False
+        body = self.block(self.node.body, env, lambda e2, i2: self.err(self.node, "falls off the end"), 1)
+        return ps.strip(), body
+
+    def expr(self, e, env):
+        if isinstance(e, ast.Dict) and not e.keys:
+            return "([] : List (Load.Y × Bool))", "FlagDict"
+        if isinstance(e, ast.Tuple) and len(e.elts) == 3:
+            parts = [self.expr(x, env) for x in e.elts]
+            if all(t == "FlagDict" for _, t in parts):
+                return "(" + ", ".join(o for o, _ in parts) + ")", "FlagDict3"
+        if isinstance(e, ast.Call) and ast.unparse(e.func) == "float" and len(e.args) == 1:
+            o, t = self.expr(e.args[0], env)
+            if t == "Rat":
+                return o, "Rat"
+            if t == "Y":
+                return f"(PyRt.yfloat {o})", "Rat"
+        if isinstance(e, ast.Call) and isinstance(e.func, ast.Attribute) and e.func.attr == "get" and len(e.args) == 2 \
+                and isinstance(e.func.value, ast.Name) and e.func.value.id in self.known_maps:
+            key = self.kconst(e.args[0], env)
+            dflt = e.args[1]
+            if key is not None and isinstance(dflt, ast.Attribute) and ast.unparse(dflt) == "u.DEFAULT_HOST_VALUE":
+                o, _ = self.expr(e.func.value, env)
+                d = self.w.uconsts["DEFAULT_HOST_VALUE"]
+                return f"(if PyRt.ymapHas {o} {pysrc_str(key)} then PyRt.ymapGet {o} {pysrc_str(key)} else Load.Y.int {int(d)})", "Y"
+        if isinstance(e, ast.Compare) and len(e.ops) == 1 and isinstance(e.ops[0], ast.In):
+            a, ta = self.expr(e.left, env)
+            b, tb = self.expr(e.comparators[0], env)
+            if ta == "Y" and tb == "Y":
+                return f"(PyRt.yContains {b} {a})", "Bool"
+        return super().expr(e, env)
+
+    def assigned(self, stmts, env):
+        out = super().assigned(stmts, env)
+        for st in stmts:
+            for x in ast.walk(st):
+                if isinstance(x, ast.Assign) and isinstance(x.targets[0], ast.Subscript) and isinstance(x.targets[0].value, ast.Name) \
+                        and env.get(x.targets[0].value.id, ("", ""))[1:] == ("FlagDict",) and x.targets[0].value.id not in out:
+                    out.append(x.targets[0].value.id)
+        return out
+
+    def assign(self, tgt, value, env, nxt, ind):
+        pad = "  " * ind
+        if isinstance(tgt, ast.Subscript) and isinstance(tgt.value, ast.Name) and env.get(tgt.value.id, ("", ""))[1:] == ("FlagDict",):
+            k, kt = self.expr(tgt.slice, env)
+            v, vt = self.expr(value, env)
+            if kt != "Y" or vt != "Bool":
+                self.err(tgt, f"store of {vt} under a key of type {kt}")
+            d = tgt.value.id
+            return f"{pad}let {d} := PyRt.flagSet {d} {k} {v}\n" + nxt(env)
+        return super().assign(tgt, value, env, nxt, ind)
+
+    def ret_text(self, st, env):
+        v, t = self.expr(st.value, env)
+        want = self.fn.ret
+        if t != want:
+            self.err(st, f"returns {t}, expected {want}")
+        return f".ret {v}" if getattr(self, "loop", None) is not None else v
+
+
 class TrStepLimit(TrLoad):
     """the `else` branch of `_parse_step_limit`: `step_limit = yaml_dict[STEP_LIMIT]; assert step_limit > 0`"""
     def body_of(self):
@@ -647,6 +724,31 @@ def translate_loader():
             ["NatList", "YList", "YList", "YList", "SensMap"], [("addr", "Y"), ("cfg", "Y")]))
     emit(mk("_validate_host_configs", ["subnets", "os", "services", "processes", "sensitive_hosts", "num_hosts"],
             ["NatList", "YList", "YList", "YList", "SensMap", "Nat"], [("host_configs", "YMap")]))
+    w.uconsts = {"DEFAULT_HOST_VALUE": __import__("nasim.scenarios.utils", fromlist=["x"]).DEFAULT_HOST_VALUE}
+
+    def emit_data(fn, ret):
+        fn.ret = ret
+        node = meth.get(fn.name)
+        doc = f"`nasim/scenarios/loader.py`: `ScenarioLoader.{fn.name}`"
+        ps0 = (" ".join(f"({c} : {LEAN_TYPE[t]})" for c, t in zip(fn.ctx, fn.ctx_ty)) + " "
+               + " ".join(f"({p} : {LEAN_TYPE[t]})" for p, t in fn.params)).strip()
+        try:
+            if node is None:
+                raise Untranslatable(f"{fn.name} not found")
+            saved = w.lean_ret
+            w.lean_ret = lambda f_: LEAN_TYPE[ret]
+            try:
+                ps, body = TrLoadData(w, fn, node).run1()
+            finally:
+                w.lean_ret = saved
+            out.append(f"/-- {doc} -/\ndef {fn.lean} {ps} : {LEAN_TYPE[ret]} :=\n{body}")
+        except Untranslatable as e:
+            why = str(e).replace("-/", "- /")
+            out.append(f"/-- UNTRANSLATABLE {doc} — {why} -/\ndef {fn.lean} {ps0} : {LEAN_TYPE[ret]} := default\n")
+    for v_ in ("os_cfg", "services_cfg", "processes_cfg"):
+        w.local_types[("_construct_host_config", v_)] = "FlagDict"
+    emit_data(mk("_construct_host_config", ["os", "services", "processes"], ["YList", "YList", "YList"], [("host_cfg", "Y")]), "FlagDict3")
+    emit_data(mk("_get_host_value", ["sensitive_hosts"], ["SensMap"], [("address", "IntPair"), ("host_cfg", "Y")]), "Rat")
     fn = mk("step_limit_ok", [], [], [("step_limit", "Y")])
     # the test sits inside _parse_step_limit; its only variable is the value read from the file
     node = meth.get("_parse_step_limit")
